@@ -1,7 +1,8 @@
 /* C20: one instantiation of every uatomic operation for every operand type.  Compiled four times from /repo/include:
  *   {x86 inline asm (default), CONFIG_RCU_USE_ATOMIC_BUILTINS} x {C, C++}, each with its own symbol prefix -DPFX=<name>.
  * pre == 1: the old value is stored with a plain C assignment in the same function immediately before the operation (the compiler sees both).
- * typed == 1: operands are passed with the operand's own type; typed == 0: passed as (unsigned) long expressions, the way callers pass literals. */
+ * typed == 1: operands are passed with the operand's own type; 0: as (unsigned) long expressions; 2: as unsigned int; 3: as int - the way callers pass
+ * literals and narrower variables (the C conversion of that expression to the operand type is the documented operand value). */
 #include <stdint.h>
 #include <urcu/uatomic.h>
 #include "uat_ops.h"
@@ -18,18 +19,18 @@ int CAT(PFX, _apply)(int type, int op, int typed, void *addr, uint64_t a, uint64
 /* PRE: the old value is written by an ordinary C assignment immediately before the operation, in straight-line code, as callers do */
 #define OPS(T, RET, WIDE, PRE) \
 	switch (op) { \
-	case UOP_SET: PRE if (typed) uatomic_set(p, (T)a); else uatomic_set(p, (WIDE)a); return 0; \
+	case UOP_SET: PRE if (typed == 1) uatomic_set(p, (T)a); else if (typed == 2) uatomic_set(p, (unsigned int)a); else if (typed == 3) uatomic_set(p, (int)a); else uatomic_set(p, (WIDE)a); return 0; \
 	case UOP_READ: PRE *ret = RET(T, uatomic_read(p)); return 1; \
-	case UOP_XCHG: PRE if (typed) *ret = RET(T, uatomic_xchg(p, (T)a)); else *ret = RET(T, uatomic_xchg(p, (WIDE)a)); return 1; \
+	case UOP_XCHG: PRE if (typed == 1) *ret = RET(T, uatomic_xchg(p, (T)a)); else if (typed == 2) *ret = RET(T, uatomic_xchg(p, (unsigned int)a)); else if (typed == 3) *ret = RET(T, uatomic_xchg(p, (int)a)); else *ret = RET(T, uatomic_xchg(p, (WIDE)a)); return 1; \
 	case UOP_CMPXCHG: PRE *ret = RET(T, uatomic_cmpxchg(p, (T)a, (T)b)); return 1; \
-	case UOP_ADD_RETURN: PRE if (typed) *ret = RET(T, uatomic_add_return(p, (T)a)); else *ret = RET(T, uatomic_add_return(p, (WIDE)a)); return 1; \
-	case UOP_SUB_RETURN: PRE if (typed) *ret = RET(T, uatomic_sub_return(p, (T)a)); else *ret = RET(T, uatomic_sub_return(p, (WIDE)a)); return 1; \
-	case UOP_ADD: if (typed) { PRE uatomic_add(p, (T)a); } else { PRE uatomic_add(p, (WIDE)a); } return 0; \
-	case UOP_SUB: if (typed) { PRE uatomic_sub(p, (T)a); } else { PRE uatomic_sub(p, (WIDE)a); } return 0; \
+	case UOP_ADD_RETURN: PRE if (typed == 1) *ret = RET(T, uatomic_add_return(p, (T)a)); else if (typed == 2) *ret = RET(T, uatomic_add_return(p, (unsigned int)a)); else if (typed == 3) *ret = RET(T, uatomic_add_return(p, (int)a)); else *ret = RET(T, uatomic_add_return(p, (WIDE)a)); return 1; \
+	case UOP_SUB_RETURN: PRE if (typed == 1) *ret = RET(T, uatomic_sub_return(p, (T)a)); else if (typed == 2) *ret = RET(T, uatomic_sub_return(p, (unsigned int)a)); else if (typed == 3) *ret = RET(T, uatomic_sub_return(p, (int)a)); else *ret = RET(T, uatomic_sub_return(p, (WIDE)a)); return 1; \
+	case UOP_ADD: if (typed == 1) { PRE uatomic_add(p, (T)a); } else if (typed == 2) { PRE uatomic_add(p, (unsigned int)a); } else if (typed == 3) { PRE uatomic_add(p, (int)a); } else { PRE uatomic_add(p, (WIDE)a); } return 0; \
+	case UOP_SUB: if (typed == 1) { PRE uatomic_sub(p, (T)a); } else if (typed == 2) { PRE uatomic_sub(p, (unsigned int)a); } else if (typed == 3) { PRE uatomic_sub(p, (int)a); } else { PRE uatomic_sub(p, (WIDE)a); } return 0; \
 	case UOP_INC: PRE uatomic_inc(p); return 0; \
 	case UOP_DEC: PRE uatomic_dec(p); return 0; \
-	case UOP_AND: if (typed) { PRE uatomic_and(p, (T)a); } else { PRE uatomic_and(p, (WIDE)a); } return 0; \
-	case UOP_OR: if (typed) { PRE uatomic_or(p, (T)a); } else { PRE uatomic_or(p, (WIDE)a); } return 0; \
+	case UOP_AND: if (typed == 1) { PRE uatomic_and(p, (T)a); } else if (typed == 2) { PRE uatomic_and(p, (unsigned int)a); } else if (typed == 3) { PRE uatomic_and(p, (int)a); } else { PRE uatomic_and(p, (WIDE)a); } return 0; \
+	case UOP_OR: if (typed == 1) { PRE uatomic_or(p, (T)a); } else if (typed == 2) { PRE uatomic_or(p, (unsigned int)a); } else if (typed == 3) { PRE uatomic_or(p, (int)a); } else { PRE uatomic_or(p, (WIDE)a); } return 0; \
 	case UOP_LOAD: PRE *ret = RET(T, uatomic_load(p)); return 1; \
 	case UOP_STORE: PRE uatomic_store(p, (T)a); return 0; \
 	}
